@@ -5,6 +5,7 @@
 package verifrt
 
 import (
+	"crypto/sha256"
 	"encoding/json"
 	"fmt"
 	"os"
@@ -316,5 +317,13 @@ func Implies(a, b bool) bool   { return !a || b }
 // stubs substituted for internal functions); natively the run is skipped and a violation is
 // reported on the engine's verdict alone (the check's config sets no_replay for it).
 func EngineOnly() { panic(SkipPath{"engine-only harness"}) }
+
+// NativeSkip ends a native run that cannot follow the engine's (a summarised internal
+// function, the system clock, ...). The run is then not used for translator validation.
+func NativeSkip(why string) {
+	if !Symbolic() {
+		panic(SkipPath{"native-unsupported: " + why})
+	}
+}
 
 func OpaqueString() string { return "<opaque>" }
